@@ -742,7 +742,10 @@ def _job_extra(a):
     (2) a call the application has cancelled (CANCEL sent, router confirmation outstanding) is still
         pending when the session ends (router GOODBYE / transport loss), together with other
         requests: the end of the session must fail every other pending request, fire leave, and let
-        no exception escape."""
+        no exception escape;
+    (3) pending calls whose failure the application does not consume (no errback / an errback that
+        hands the failure on) at a session end by GOODBYE: the default onLeave still fires 'leave' and
+        closes the transport."""
     from mc import worker
     from harness import wamp_l1 as H
     from autobahn.wamp import message as M
@@ -821,6 +824,52 @@ def _job_extra(a):
             bad("leave-not-fired", "%s with a cancelled call pending: callbacks %s" % (end, cbs))
         if end == "router-goodbye" and not tr.calls:
             bad("transport-not-closed", "router GOODBYE with a cancelled call pending: no close requested")
+    # ---- (3) requests pending at the end of the session whose failure the application does not
+    # consume (no errback at all / an errback that logs and hands the failure on): the session's
+    # default onLeave must still fail them, fire 'leave' and close the transport
+    for how in ("no-errback", "pass-through-errback"):
+        for end in ("router-goodbye", "leave-then-router-reply"):
+            for nreq in (1, 2):
+                l1 = H.L1()
+                l1.join()
+                s, tr = l1.session, l1.transport
+                seen_fail = []
+                ds = [s.call("com.p.slow%d" % i, i) for i in range(nreq)]
+                if how == "pass-through-errback":
+                    for d in ds:
+                        if l1.fw == "tx":
+                            d.addErrback(lambda f, _s=seen_fail: (_s.append(f.value), f)[1])
+                        else:
+                            d.add_done_callback(lambda f, _s=seen_fail: _s.append(f.exception()))
+                l1.settle()
+                r0 = len(s.rec)
+                if end == "leave-then-router-reply":
+                    l1.api(s.leave)
+                    l1.settle()
+                    exc = l1.deliver(M.Goodbye("wamp.close.goodbye_and_out"))
+                else:
+                    exc = l1.deliver(M.Goodbye("wamp.close.system_shutdown"))
+                l1.settle()
+                n += 1
+                label = "%s, %d pending call(s) with %s" % (end, nreq, how)
+                if exc is not None:
+                    bad("escape-at-session-end", "%s: %r" % (label, exc))
+                cbs = [x[0] for x in s.rec[r0:]]
+                if "onLeave" not in cbs:
+                    bad("leave-not-fired", "%s: callbacks %s" % (label, cbs))
+                if not tr.calls:
+                    bad("transport-not-closed", "%s: the session ended but close() was never requested "
+                        "on the transport (callbacks %s)" % (label, cbs))
+                if "ev:leave" not in cbs:
+                    bad("leave-observer-not-fired", "%s: callbacks/observers %s" % (label, cbs))
+                for d in ds:
+                    done = d.called if l1.fw == "tx" else d.done()
+                    if not done:
+                        bad("pending-not-failed", "%s: a call is still pending" % label)
+                    elif l1.fw == "tx":
+                        d.addErrback(lambda f: None)      # end of the experiment: silence
+                    else:
+                        d.exception()
     return {"evals": n, "viol": viol, "stats": {"extra_execs": n, "nontrivial": n, "execs": n},
             "samples": [{"kind": "extra", "cases": n}]}
 
